@@ -1,6 +1,7 @@
 package checks
 
 import (
+	"reflect"
 	"fmt"
 	"strings"
 	"testing"
@@ -146,10 +147,40 @@ func baseValid(p Prof, variant int) *MClaims {
 	return m
 }
 
+// c01WideIntegers: should the integer fields of the claims structs be wider
+// than the claims (a uint32 behind the 16-bit lifecycle, an int64 behind the
+// 32-bit client id), values beyond the claim's width are in no valid range.
+func c01WideIntegers() string {
+	for _, p := range []Prof{P1, P2} {
+		for _, v := range []uint64{0x10000, 0x13000, 0x230ff, 0xffff3000, 0x100000000 + 0x3000, 0x16000} {
+			c, _ := baseValid(p, 1).BuildLiteral()
+			f := reflect.ValueOf(c).Elem().FieldByName("SecurityLifeCycle")
+			if !f.IsValid() || f.Kind() != reflect.Pointer || f.IsNil() {
+				continue
+			}
+			e := f.Elem()
+			if e.Kind() < reflect.Uint || e.Kind() > reflect.Uint64 || e.OverflowUint(v) {
+				continue // the field cannot hold the value: nothing to judge
+			}
+			e.SetUint(v)
+			if err := c.Validate(); err == nil {
+				return fmt.Sprintf("%s claims-set whose security lifecycle is 0x%x (in none of the seven ranges) validates", p, v)
+			}
+			if got, err := c.GetSecurityLifeCycle(); err == nil {
+				return fmt.Sprintf("%s GetSecurityLifeCycle() = 0x%x, nil for a stored lifecycle of 0x%x", p, got, v)
+			}
+		}
+	}
+	return ""
+}
+
 func TestC01_Sweep(t *testing.T) {
 	st := NewStats("C01", "TestC01_Sweep", "exhaustive single-claim sweeps on an otherwise valid set (3 backgrounds x 2 profiles): every byte-string length 0..80 (and 256+k, 512+k, 65536+k for the valid sizes k) for impl-id, boot-seed, nonce, inst-id, component value/signer; the profile-2 nonce in array form with null / empty entries around a value; inst-id type byte 0..255 at length 33; lifecycle range ends and outside neighbours; complete single-edit neighbourhood of both certification-reference forms plus every same-byte-length variant with non-ASCII decimal digits. Non-trivial = the swept value differs from the canned 32-byte/0x3000 values; distinct = (profile, background, claim, value class)")
 	st.Exhaustive = true
 	defer st.Flush(t)
+	if msg := c01WideIntegers(); msg != "" {
+		t.Fatalf("C01 violated: %s", msg)
+	}
 	run := func(m *MClaims, key string) {
 		msg, skipped := c01Check(m)
 		if skipped {
